@@ -42,6 +42,9 @@ def addition_sets():
     out.append([first + "." + sorted(PRISTINE[first])[0]])          # existing member
     out.append([first + ".zqv_member", first + ".zqv_member"])       # duplicate
     out.append([MODS[1] + ".zqv_a", "zqv_other.b", MODS[2] + ".zqv_c"])
+    # a *different* member of a module that another set also extends (state kept per module shows only then)
+    out.append([MODS[0] + ".zqv_second"])
+    out.append(["zqv_new.h"])
     return out
 
 
@@ -63,7 +66,8 @@ def permitted(u, module, name):
 
 
 def probes(adds_universe):
-    ps = [("zqv_new", "f"), ("zqv_new", "g"), ("zqv_pkg.sub", "h"), ("zqv_other", "b"), ("os", "system"), ("builtins", "eval")]
+    ps = [("zqv_new", "f"), ("zqv_new", "g"), ("zqv_new", "h"), ("zqv_pkg.sub", "h"), ("zqv_other", "b"), ("os", "system"), ("builtins", "eval"),
+          (MODS[0], "zqv_second")]
     for m in MODS[:6]:
         ps.append((m, "zqv_member"))
     ps.append((MODS[1], "zqv_a"))
@@ -81,7 +85,7 @@ def table_pristine():
 
 def one_step(op: int, a: int, b: int) -> bool:
     """
-    pre: 0 <= op < 4 and 0 <= a < 16 and 0 <= b < 16
+    pre: 0 <= op < 4 and 0 <= a < 20 and 0 <= b < 20
     post: _
     """
     if a >= len(ADDS) or b >= len(ADDS):
@@ -116,6 +120,8 @@ def _one_step(op, a, b):
                 ok = ok and _probe_env(names_of(ADDS[b]))
             finally:
                 hook.remove_hook()
+            # after deactivation an unpickler built without additions permits the built-in allowlist only
+            ok = ok and _exact(FicklingMLUnpickler(io.BytesIO(b"N.")), set())
         elif op == 2:
             # the static analysis consults the built-in table only: verdicts before == verdicts after using the feature
             names = sorted(names_of(adds) | {("zqv_new", "f"), (MODS[0], "zqv_member")})
@@ -186,7 +192,7 @@ def history(h: List[int]) -> bool:
         elif x == 8:
             ops.append((1, 0))
         elif x < 13:
-            ops.append((2, x - 9 + 1))
+            ops.append((2, [0, 1, 2, 6][x - 9]))
         else:
             ops.append((3, 0))
     with native():
@@ -195,7 +201,7 @@ def history(h: List[int]) -> bool:
 
 HMAX = [3]
 H_ADDS = [None, ["zqv_new.f"], [MODS[0] + ".zqv_member"], ["zqv_new.g", MODS[1] + ".zqv_a"], [], ["zqv_pkg.sub.h"],
-          [MODS[0] + ".zqv_member", "zqv_other.b"], [MODS[2] + ".zqv_c"]]
+          [MODS[0] + ".zqv_second", "zqv_other.b"], [MODS[2] + ".zqv_c"]]
 
 
 def _history(ops):
@@ -233,10 +239,10 @@ def lemmas(tier):
     q = tier == "quick"
     HMAX[0] = 3 if q else 4
     return [
-        Lemma("one_step", one_step, timeout=300 if q else 900, dry=[{"op": 0, "a": 5, "b": 2}, {"op": 1, "a": 2, "b": 0}],
+        Lemma("one_step", one_step, timeout=300 if q else 900, dry=[{"op": 0, "a": 5, "b": 2}, {"op": 1, "a": 2, "b": 0}, {"op": 0, "a": 5, "b": len(ADDS) - 2}, {"op": 0, "a": 2, "b": len(ADDS) - 1}],
               doc={"F": ["operation: construct / activate+probe+reactivate / analysis / two live instances", "additions a, b from %d table-derived classes" % len(ADDS)],
                    "bound": "one operation from the pristine table (inductive: the post-state is again pristine)"}),
-        Lemma("history", history, timeout=400 if q else 1800, dry=[{"h": [2, 13, 8]}, {"h": [1, 10, 13]}],
+        Lemma("history", history, timeout=400 if q else 1800, dry=[{"h": [2, 13, 8]}, {"h": [1, 10, 13]}, {"h": [2, 13, 8, 9]}, {"h": [11, 12]}],
               doc={"F": ["histories of length <= %d over activate(8 addition sets) / deactivate / construct(4 addition sets) / probe: 14 symbols" % HMAX[0]],
                    "bound": "length <= %d" % HMAX[0]}),
     ]
